@@ -333,6 +333,10 @@ func check(sub string) func(t h.TB, c Case) {
 				if strings.HasPrefix(cm.Text, "/*") && strings.Contains(cm.Text, "\n") {
 					multi = true
 				}
+				if strings.HasPrefix(cm.Text, "//") && !strings.Contains(cm.Text, "§") {
+					// a line comment of the source ends its line just as well (". // l⏎ \"fmt\"")
+					multi = true
+				}
 			}
 		}
 		lastOff := map[int]int{}
@@ -348,7 +352,7 @@ func check(sub string) func(t h.TB, c Case) {
 				h.Fail(t, sub, c, "decoration %s not found as a comment in the output", p.text)
 			}
 			if heldBack[p.text] {
-				h.Label("skipped-placement:marker-grouped-behind-a-multi-line-comment")
+				h.Label("skipped-placement:marker-grouped-behind-a-line-breaking-comment-of-the-source")
 				continue
 			}
 			desc := fmt.Sprintf("%s on %s.%s", p.text, ty, p.point)
